@@ -33,6 +33,19 @@ Definition enc_mysql_ssl_request41 (caps max_packet charset : Z) : bytes :=
 (* pre-4.1: capability flags (2, LE), max packet size (3, LE) *)
 Definition enc_mysql_ssl_request320 (caps max_packet : Z) : bytes := enc_uint_le 2 caps ++ enc_uint_le 3 max_packet.
 
+(* MySQL Protocol::HandshakeV10 (initial handshake packet payload): protocol version 10, NUL-terminated server version,
+   4-byte connection id, 8 bytes of auth-plugin-data, a zero filler, the LOWER two bytes of the capability flags, character
+   set, status flags, the UPPER two bytes of the capability flags, the length of the auth-plugin-data (or zero without
+   CLIENT_PLUGIN_AUTH), ten reserved zero bytes, the rest of the auth-plugin-data, the NUL-terminated plugin name. *)
+Definition mysql_client_plugin_auth : Z := 524288.
+Definition enc_mysql_handshake_v10 (server_version : bytes) (connection_id : Z) (auth1 : bytes) (caps charset status : Z)
+    (auth2 : bytes) (plugin : option bytes) : bytes :=
+  let plugin_auth := Z.testbit caps 19 in
+  [z2b 10] ++ server_version ++ [z2b 0] ++ enc_uint_le 4 connection_id ++ auth1 ++ [z2b 0]
+  ++ enc_uint_le 2 (caps mod 65536) ++ [z2b charset] ++ enc_uint_le 2 status ++ enc_uint_le 2 (caps / 65536)
+  ++ [z2b (if plugin_auth then 8 + zlen auth2 else 0)] ++ repeat (z2b 0) 10 ++ auth2
+  ++ match plugin with Some p => if plugin_auth then p ++ [z2b 0] else [] | None => [] end.
+
 (* OpenVPN control channel: opcode (5 bits) | key id (3 bits); session id (8); ack array length (1); acks (4 each) and the
    remote session id (8) when the array is not empty; for control packets: packet id (4); payload. TCP: 2-byte length prefix *)
 Definition enc_openvpn_header (opcode session : Z) (acks : list Z) (remote : Z) : bytes :=
